@@ -16,6 +16,9 @@ META = {
         'R2': 'start cell == box: the boundary constructor yields six planes (+-e_c through A_c resp. A_c + W_c) with inward normals; the eight initial vertices take one plane per axis, '
               'cover the eight corners once each, and their plane triples all have the same orientation',
         'R3': 'periodic start box: on active axes the walls lie at or beyond A - W/2 and A + 3W/2 for every anchor A (the Wigner-Seitz bound of any periodic cell); inactive axes are untouched',
+        'R5': 'translation conditioning of the measure kernels: in signed_volume_tet, signed_area_tri, in_sphere_test, intersect_planes, the plane projections and the collect methods of '
+              'the built-in integrals no multiplicative operation combines operands whose joint degree in a common translation of all input points exceeds 1 (absolute coordinates are '
+              'never multiplied with one another; differences are formed first), so rounding errors scale with the cell size and not with the distance of the box from the origin',
         'R4': 'volume accumulation (C01.R6): volume = sum of signed tetrahedron volumes with the generator as apex',
     },
     'explanation': 'Decides, per (dimensionality x periodic) configuration by constant folding of the real code, that the start polytope is the simulation box with unit '
@@ -33,7 +36,7 @@ def run(ctx):
     for cfg in ctx.configs_used:
         F = ctx.facts(cfg)
         sfx = '' if cfg == 'default' else '@' + cfg
-        for fn in (r1, r2, r3, r4):
+        for fn in (r1, r2, r3, r4, r5):
             rule = 'C02.' + fn.__name__.upper()
             ctx.guarded(rule, 'evaluate' + sfx, lambda: fn(ctx, F, rule, sfx))
 
@@ -213,3 +216,70 @@ def r3(ctx, F, rule, sfx):
 
 def r4(ctx, F, rule, sfx):
     c01.r6(ctx, F, rule, sfx)
+
+
+def conditioning_scenarios(F):
+    """(name, body, args, point symbols, no_inline)"""
+    out = []
+    P = lambda n: I.sym_vec3(n)
+    syms = lambda names: [n + '.' + c for n in names for c in 'xyz']
+    out.append(('signed_volume_tet', F.body_by_suffix('geometry::signed_volume_tet'), [P('v0'), P('v1'), P('v2'), P('v3')], syms(['v0', 'v1', 'v2', 'v3']), ()))
+    out.append(('signed_area_tri', F.body_by_suffix('geometry::signed_area_tri'), [P('v0'), P('v1'), P('v2'), P('t')], syms(['v0', 'v1', 'v2', 't']), ()))
+    out.append(('in_sphere_test', F.body_by_suffix('geometry::in_sphere_test'), [P(n) for n in 'abcdv'], syms(list('abcdv')), ()))
+
+    def plane(name):
+        return I.St('geometry::Plane', 'Plane', {'n': I.sym_vec3(name + '.n'), 'p': I.sym_vec3(name + '.p')})
+    out.append(('intersect_planes', F.body_by_suffix('geometry::intersect_planes'), ['ref:' + n for n in ('p0', 'p1', 'p2')], syms(['p0.p', 'p1.p', 'p2.p']), ()))
+    out.append(('Plane::project_onto', F.body_by_suffix('geometry::Plane::project_onto'), ['ref:pl', P('x')], syms(['pl.p', 'x']), ()))
+    out.append(('Plane::project_onto_intersection', F.body_by_suffix('geometry::Plane::project_onto_intersection'), ['ref:p0', 'ref:p1', P('x')], syms(['p0.p', 'p1.p', 'x']), ()))
+    for trait in ('voronoi::integrals::CellIntegral', 'voronoi::integrals::FaceIntegral'):
+        for imp in F.impls_of_trait(trait):
+            st = imp['self']
+            col = F.body('<%s as %s>::collect' % (st, trait), required=False)
+            if col is None:
+                continue
+            out.append((st.split('::')[-1] + '::collect', col, ['self:' + st, P('v0'), P('v1'), P('v2'), P('g')], syms(['v0', 'v1', 'v2', 'g']), ()))
+    return out, plane
+
+
+def r5(ctx, F, rule, sfx, only=None):
+    from .. import conditioning as C
+    scs, plane = conditioning_scenarios(F)
+    n = 0
+    for name, body, args, psyms, no in scs:
+        if only is not None and not only(name):
+            continue
+        ip0 = I.Interp(F)
+        real = []
+        for a in args:
+            if isinstance(a, str) and a.startswith('ref:'):
+                real.append(('ref', plane(a[4:])))
+            elif isinstance(a, str) and a.startswith('self:'):
+                real.append(('mut', I.Sym(nf.sym_atom('acc'), a[5:])))
+            else:
+                real.append(('val', a))
+
+        def build(ip):
+            out = []
+            for k, v in real:
+                out.append(ip.ref_to(v) if k == 'ref' else ip.ref_to(v, mut=True) if k == 'mut' else v)
+            return out
+        ip = I.Interp(F, no_inline=no)
+        ip.track_products = True
+        ip.unroll_limit = 8
+        try:
+            ip.call_body(body, build(ip))
+        except I.Diverge:
+            pass
+        ctx.evaluations += ip.evaluations
+        mp = C.shifted(psyms)
+        worst = (0, None, None)
+        for callee, line, ops, b in ip.products:
+            d = C.operation_degree(callee, ops, mp)
+            if d > worst[0]:
+                worst = (d, callee, line)
+        n += 1
+        ctx.check(rule, 'kernel:%s%s' % (name, sfx), worst[0] <= 1, '%d multiplicative operations; highest joint translation degree %d%s' % (len(ip.products), worst[0], (' in %s at line %s' % (worst[1].rsplit('::', 1)[-1], worst[2])) if worst[0] > 1 else ''),
+                  '<= 1: differences are formed before anything is multiplied', where(body), key_extra='degree:%d' % worst[0])
+    if only is None:
+        ctx.floor(rule, 'measure kernels analysed' + sfx, n, 10)
